@@ -1161,9 +1161,39 @@ def fuzz_cases(rng, tier):
                            st[:rng.choice([0, 0, 1, 2])], tag="fuzz")
 
 
+def onebyte_sig_cases(rng, tier):
+    """one-byte signature blobs 01..10 / 81: their plain push `01 vv` (what _delete_signature removes since 2ba5b6d)
+    differs from the minimal push OP_1..OP_16 / OP_1NEGATE; inside CHECKMULTISIG batches next to a real signature,
+    in scripts that contain the OP_n form, the plain form, or both"""
+    nb = BitcoinVM.IntStreamer.int_to_script_bytes
+    k1, k2 = SECRETS[0], SECRETS[1]
+    fls = [0, F.VERIFY_NULLFAIL, F.VERIFY_NULLDUMMY | F.VERIFY_DERSIG, F.VERIFY_STRICTENC | F.VERIFY_LOW_S]
+    for v in list(range(1, 17)) + [0x81, 0x00, 0x11, 0x80]:
+        blob = bytes([v])
+        opn = push(blob)                      # OP_n / OP_1NEGATE where one exists
+        plain = b"\x01" + blob
+        for pre in (opn + o("DROP"), plain + o("DROP"), opn + plain + o("2DROP"), b""):
+            for tail in (o("CHECKMULTISIG"), o("CHECKMULTISIG", "NOT")):
+                ms = pre + push(nb(2)) + push(sec(k1)) + push(sec(k2)) + push(nb(2)) + tail
+                for sv in "BW":
+                    for code in (ms, ms.replace(opn, b"", 1) if opn != plain else ms, ms.replace(plain, b"", 1)):
+                        real = make_sig(CTX0, sv, code, k2)
+                        for stack in ([b"", blob, real], [b"", real, blob]):
+                            yield c_eval(rng.choice(fls), sv, CTX0, ms, stack, tag="onebyte-sig")
+                one = pre + push(nb(1)) + push(sec(k1)) + push(sec(k2)) + push(nb(2)) + tail
+                yield c_eval(rng.choice(fls), "B", CTX0, one, [b"", blob], tag="onebyte-sig")
+            # single CHECKSIG with the one-byte blob as THE signature
+            cs = pre + push(sec(k1)) + o("CHECKSIG", "NOT")
+            for fl in fls:
+                yield c_eval(fl, "B", CTX0, cs, [blob], tag="onebyte-sig")
+            # as scriptPubKey of a spend
+            yield c_verify(rng.choice(fls), CTX0, push(b"") + push(blob), pre + push(nb(1)) + push(sec(k1)) + push(nb(1)) +
+                           o("CHECKMULTISIG", "NOT"), tag="onebyte-sig")
+
+
 def model_cases(rng, tier):
     """the C03 model-vs-implementation correspondence cases (driver C03model)"""
-    for g in (handler_cases, locktime_cases, exhaustive_opcode_cases, cond_cases, limit_cases, step_cases,
+    for g in (onebyte_sig_cases, handler_cases, locktime_cases, exhaustive_opcode_cases, cond_cases, limit_cases, step_cases,
               sig_eval_cases, grammar_cases, verify_cases, fuzz_cases):
         for c in g(rng, tier):
             yield c
